@@ -50,10 +50,15 @@ def covering_cname(zone, name):
     return False
 
 
-def clauses(zones, q, res, nlog=None):
+def clauses(zones, q, res, nlog=None, cache=(), stats=None):
     """C01's sentences on one question and its reply (parsed by localgen).  nlog = None: local stream; otherwise a
-    network-mode reply, nlog = number of upstream exchanges logged for the question.  -> None | (class, text)"""
+    network-mode reply, nlog = number of upstream exchanges logged for the question, cache = the initial cache
+    contents (parsed), stats = counters of how often each clause applied.  -> None | (class, text)"""
     net = nlog is not None
+
+    def count(k):
+        if stats is not None:
+            stats[k] = stats.get(k, 0) + 1
     n, qt = q["name"], q["qtype"]
     qs = "%s type %d" % (g.show_name(n), qt)
     if res["kind"] not in ("A", "X", "N", "E"):
@@ -62,13 +67,24 @@ def clauses(zones, q, res, nlog=None):
     # provenance: every RR at a name an authoritative zone owns is a record of that zone
     for r in rrs:
         zo = g.owned_auth(zones, r["name"])
+        if zo is not None:
+            count("provenance: records at owned names")
         if zo is not None and not g.zone_may_produce(zo, r):
-            return ("foreign-record-for-owned-name",
+            klass = "foreign-record-for-owned-name"
+            if net:
+                # network modes: the record is one the case put into the cache, or one an upstream reply supplied.
+                # The second happens although upstream is never ASKED about an owned name (that is checked on the
+                # log before this): the reply to a question about another name carried its alias chain into the
+                # owned name -- known finding of C01, see known_findings.json
+                held = any(c["name"] == r["name"] and c["type"] == r["type"] and c["data"] == r["data"] for c in cache)
+                klass = "cached-record-for-owned-name" if held else "upstream-chain-into-owned-name"
+            return (klass,
                     "question %s: the reply holds %s type %d ttl %d %s, which is not a record of the authoritative zone %s that owns the name"
                     % (qs, g.show_name(r["name"]), r["type"], r["ttl"], r["data"], g.show_name(zo["apex"])))
     # (i) owned names are answered authoritatively, with the owning zone's SOA
     z = g.owned_auth(zones, n)
     if z is not None and (qt in (CNAME, ANY) or not covering_cname(z, n)):
+        count("(i) owned, clear-cut: authoritative marking, zone's SOA" + (", empty log" if net else ""))
         if res["kind"] not in ("A", "X"):
             return ("owned-not-authoritative",
                     "question %s: the most specific zone %s is authoritative and owns the name, but the reply is %s"
@@ -88,6 +104,7 @@ def clauses(zones, q, res, nlog=None):
             if here and not (net and res["kind"] == "E"):
                 # (network modes: an ANY question goes upstream for the other types; when upstream cannot be
                 # reached the resolution fails as a whole -- not a substitution, not judged here)
+                count("(ii) override, ANY")
                 if res["kind"] != "N":
                     return ("override-lost", "question %s: the non-authoritative zone holds records of the name but the reply is %s" % (qs, res["kind"]))
                 for t in sorted({r[0] for r in here}):
@@ -101,6 +118,7 @@ def clauses(zones, q, res, nlog=None):
             here = g.recs_at(zn, n, qt)
             if here and (qt == CNAME or not g.recs_at(zn, n, CNAME)):
                 want = [rr_of(n, r) for r in here]
+                count("(ii) override, exact" + (", empty log" if net else ""))
                 if res["kind"] != "N" or rrs != want or res["soa"] is not None:
                     return ("override-not-exact",
                             "question %s: the non-authoritative zone %s holds %d record(s) of that name and type; the reply is %s with %d record(s)"
@@ -111,6 +129,7 @@ def clauses(zones, q, res, nlog=None):
                             % (qs, g.show_name(zn["apex"]), nlog))
     # (iii) a name error only on the word of an authoritative zone
     if res["kind"] == "X":
+        count("(iii) name errors")
         if zn is None or zn["soa_rr"] is None:
             return ("nxdomain-without-authority", "question %s: name error although the most specific zone is not authoritative" % qs)
         if g.node_exists(zn, n):
@@ -139,7 +158,7 @@ def oracle(case, impl, model):
 # recursive and forwarding mode (resolver stream; cases from vlib/netgen.py)
 # ---------------------------------------------------------------------------------------------
 
-def net_oracle(case, impl):
+def net_oracle(case, impl, stats=None):
     """C01 on the implementation's output of one network-mode case: the clauses above on every reply, plus the
     exchange log: no exchange asks about a name an authoritative local zone owns, and a question local data answers
     has an empty log"""
@@ -157,12 +176,14 @@ def net_oracle(case, impl):
             return None
         if not any(g.has_wild_ns(z) for z in zones.values()):
             why = rg.c01_log_check(c, results)
+            if stats is not None:
+                stats["log: exchanges checked for owned names"] = stats.get("log: exchanges checked for owned names", 0) + sum(len(r.log) for r in results)
             if why:
                 return ("upstream-asked-about-owned-name", why)
         for q, r in zip(questions, results):
             if r.kind in ("Panic", "OutOfFuel"):
                 continue
-            f = clauses(zones, q, g.parse_resolved(r.raw), nlog=len(r.log))
+            f = clauses(zones, q, g.parse_resolved(r.raw), nlog=len(r.log), cache=cache, stats=stats)
             if f is not None:
                 return f
     except Exception:      # malformed output is a correspondence matter
